@@ -156,7 +156,12 @@ class C02Partition(Monitor):
         # the water ponded at the start of the day (bunds lowered between season and fallow): the water above
         # the new height is released as runoff, which is the only way reported infiltration may be negative
         zb = float(fm.z_bund) if bunds_on(fm) else 0.0
-        removal = pre.pond > zb
+        zb_prev = getattr(self, "zb_prev", None)
+        self.zb_prev = zb
+        # ... and only if that water was legally ponded under yesterday's struct (otherwise it is not a removal day but
+        # ponding above the bund top, which no struct change explains)
+        legal_yesterday = zb_prev is None or pre.pond <= zb_prev + tol
+        removal = pre.pond > zb and legal_yesterday
         if removal:
             ctx.hit("bund_removal_day")
             if infl < -pre.pond - tol:
@@ -194,7 +199,15 @@ class C03Bounds(Monitor):
         self.g = Geometry(m)
         ps = m._param_struct
         self.any_bunds = bunds_on(ps.FieldMngt) or bunds_on(ps.FallowFieldMngt)
-        self.check_state(ctx, -1, np.asarray(m._init_cond.th, dtype=float), float(m._init_cond.surface_storage), None, None)
+        th0 = np.asarray(m._init_cond.th, dtype=float)
+        # premise of the property: the configured initial water content lies between wilting point and saturation in every
+        # compartment (a depth-interpolated specification can violate it on layered soils: its depth points take their value from
+        # the layer AT the point and are held constant below the last point, into layers with a smaller pore space)
+        self.premise = bool(((th0 >= self.g.th_wp - REL) & (th0 <= self.g.th_s + REL)).all())
+        if not self.premise:
+            ctx.notes.append("premise not met: configured initial water content outside [wilting point, saturation]; scenario skipped")
+            return
+        self.check_state(ctx, -1, th0, float(m._init_cond.surface_storage), None, None)
 
     def check_state(self, ctx, t, th, pond, fm, wr):
         g = self.g
@@ -232,6 +245,8 @@ class C03Bounds(Monitor):
             ctx.hit("pond_above_half_bund_height")
 
     def on_transition(self, ctx, pre, post):
+        if not self.premise:
+            return
         fm = field_in_force(ctx, post.gs)
         self.check_state(ctx, pre.t, post.th_end, post.pond_end, fm, float(post.flux[FX["Wr"]]))
 
